@@ -176,8 +176,17 @@ use crate::mdeque::VecDeque;
 use ntex_codec::{Decoder, Encoder};
 use ntex_io::IoRef;
 use ntex_service::{PipelineCall, Service};
-use ntex_util::task::LocalWaker;
 use crate::error::{DecodeError, DispatcherError, EncodeError, ProtocolError};
+
+/// stand-in for `ntex_util::task::LocalWaker`: the extracted items only store it. (A real `Waker` in
+/// the state makes its drop glue reachable from every task that holds the state; CBMC resolves the
+/// waker's vtable `drop` to every `fn(*const ())` in the program, drop glue of the tasks included.)
+pub(crate) struct LocalWaker;
+impl LocalWaker {
+    pub(crate) fn new() -> Self {
+        LocalWaker
+    }
+}
 
 type Request<U> = <U as Decoder>::Item;
 type Response<U> = <U as Encoder>::Item;
@@ -186,20 +195,60 @@ type Queue<T, E> = RefCell<VecDeque<ServiceResult<Result<T, E>>>>;
 """
 
 
+IO_CALL_WRAPPER_HEAD = """
+// ---- `DispatcherInner::call_service` -----------------------------------------------------------
+// The struct below is NOT repository text: it declares exactly the fields of the real
+// `DispatcherInner` that `call_service` touches (same names, model environment types). The
+// function inside the impl block IS repository text, extracted verbatim.
+use std::task::{Context, Poll};
+use ntex_io::IoBoxed;
+use ntex_service::PipelineBinding;
+use ntex_util::channel::condition::Condition;
+use ntex_util::{future::Either, future::select, spawn};
+
+pub(crate) struct DispatcherInner<P, C, U, E>
+where
+    P: Service<Request<U>>,
+    U: Encoder + Decoder + 'static,
+{
+    io: IoBoxed,
+    codec: U,
+    service: PipelineBinding<P, Request<U>>,
+    state: Rc<DispatcherState<P, U>>,
+    stopping: Condition,
+    _marker: std::marker::PhantomData<(C, E)>,
+}
+
+impl<P, C, U, E> DispatcherInner<P, C, U, E>
+where
+    P: Service<Request<U>, Response = Option<Response<U>>, Error = DispatcherError<E>> + 'static,
+    C: 'static,
+    U: Decoder<Error = DecodeError> + Encoder<Error = EncodeError> + Clone + 'static,
+    <U as Encoder>::Item: 'static,
+    <U as Decoder>::Item: 'static,
+    E: 'static,
+{
+"""
+
+
 def gen_io_state(stage):
     with open(os.path.join(REPO, "src", "io.rs")) as f:
         txt = f.read()
     parts = [extract_item(txt, rx, what) for rx, what in IO_STATE_ITEMS]
+    call_service = extract_item(txt, r"^    fn call_service\(&mut self, cx: &mut Context<'_>, item: Request<U>\)", "fn call_service")
     # the three type aliases are asserted to be what the header says
     for alias in ("type Request<U> = <U as Decoder>::Item;", "type Response<U> = <U as Encoder>::Item;",
                   "type Queue<T, E> = RefCell<VecDeque<ServiceResult<Result<T, E>>>>;"):
         if alias not in txt:
             raise SystemExit(f"weave: io.rs no longer declares `{alias}`")
     body = IO_STATE_HEADER + "\n\n".join(parts) + "\n"
+    body += IO_CALL_WRAPPER_HEAD + call_service + "\n}\n"
     body += '\n#[cfg(kani)]\n#[path = "' + os.path.join(HARN, "h_io_state.rs") + '"]\nmod verif_io_state;\n'
     with open(os.path.join(stage, "gen_io_state.rs"), "w") as f:
         f.write(body)
-    return {what: hashlib.sha256(p.encode()).hexdigest() for (rx, what), p in zip(IO_STATE_ITEMS, parts)}
+    d = {what: hashlib.sha256(p.encode()).hexdigest() for (rx, what), p in zip(IO_STATE_ITEMS, parts)}
+    d["fn call_service"] = hashlib.sha256(call_service.encode()).hexdigest()
+    return d
 
 
 def weave_kani():
